@@ -1,8 +1,8 @@
 """C17 bounded stand-in: the Box-Cox transform of models/boxcox.py on the real code.
 
 Bound: x in {0.05, 0.5, 1, 2, 5, 100} (+ {1e-3, 0.9, 17.5, 1e4} thorough), ell on both sides of the switching point 1e-5
-(|ell| in {0, 1e-12, 1e-8, 1e-6, 5e-6, 0.99e-5} uses the series branch; |ell| in {1.01e-5, 2e-5, 1e-4, 1e-2, 0.5, 1, 2}
-the regular branch), both signs.  The real tree is evaluated by Expression.get_value() with Numeric leaves and by the
+(|ell| in {0, 1e-12, 1e-8, 1e-6, 5e-6, 0.99e-5} uses the series branch; |ell| in {1.01e-5, 2e-5, 1e-4, 1e-3, 5e-3, 1e-2,
+0.05, 0.1, 0.5, 1, 2} the regular branch), both signs.  The real tree is evaluated by Expression.get_value() with Numeric leaves and by the
 compiled engine (Variable x on a tiny Database, ell a Beta parameter).
 Oracle: B(x, ell) = (exp(ell ln x) - 1) / ell, ln x at ell = 0, computed with 50 significant digits (decimal module);
 tolerance 1e-9 relative (+1e-12): the rounding of the regular branch in double precision near the switching point is
@@ -24,7 +24,7 @@ CLAUSES = [
 ]
 
 SERIES = [1e-12, 1e-8, 1e-6, 5e-6, 0.99e-5]
-REGULAR = [1.01e-5, 2e-5, 1e-4, 1e-2, 0.5, 1.0, 2.0]
+REGULAR = [1.01e-5, 2e-5, 1e-4, 1e-3, 5e-3, 1e-2, 0.05, 0.1, 0.5, 1.0, 2.0]
 
 
 def reference(x, ell):
